@@ -182,37 +182,45 @@ def r2_r4(model, rep):
     args = {"self": Sym(("name", "self")), VI: fr("vi"), VO: fr("vo"), II: fr("ii"), IO: fr("io"), TA: fr("ta"),
             PH: Sym(("name", "phase")), PC: Sym(("name", "phase_conf"))}
     leaves = sm.summarize(fn, args)
-    # R4: silence exactly on  type not in {SOURCE, SLOSS} and has table and phase not listed
-    eS = ("EQ",) + tuple(sorted([Sym(("CT", "SOURCE")), Sym(("CTYPE",))], key=repr))
-    eL = ("EQ",) + tuple(sorted([Sym(("CT", "SLOSS")), Sym(("CTYPE",))], key=repr))
+    # R4: silence exactly for the kinds the statement names (converter, regulator, switch, mux, load - the kinds that can be inactive in a
+    # phase) when they have a phase table that does not list the phase; a source, a series loss and a rectifier are always evaluated
+    TYPES = ["SOURCE", "LOAD", "SLOSS", "CONVERTER", "LINREG", "PSWITCH", "PMUX", "RECTIFIER"]
+    SLEEPERS = {"LOAD", "CONVERTER", "LINREG", "PSWITCH", "PMUX"}
+    enum_cls = model.cls("_ComponentTypes")
+    have = sorted(t.id for st_ in enum_cls.body if isinstance(st_, ast.Assign) for t in st_.targets if isinstance(t, ast.Name))
+    if have != sorted(TYPES):
+        raise AnalysisError("_ComponentTypes has members %s: the silence table is not classified for them" % have)
+
+    def teq(t):
+        return ("EQ",) + tuple(sorted([Sym(("CT", t)), Sym(("CTYPE",))], key=repr))
+    tatoms = {teq(t): t for t in TYPES}
     PCa, INa = ("B", "PC"), ("B", "IN")
-    atoms = [eS, eL, PCa, INa]
     ok4, ok2 = True, True
     got_all = None
     extra = set()
     for lf in leaves:
         for g in lf.guards:
             atoms_of(g, extra)
-    atoms = atoms + sorted(extra - set(atoms), key=repr)
-    if len(atoms) > 10:
+    free = [PCa, INa] + sorted(extra - set(tatoms) - {PCa, INa}, key=repr)
+    if len(free) > 8:
         raise AnalysisError("_solv_get_warns: too many guard atoms")
-    for bits in itertools.product((False, True), repeat=len(atoms)):
-        al = dict(zip(atoms, bits))
-        if al[eS] and al[eL]:
-            continue
+    for ctype, bits in itertools.product(TYPES, itertools.product((False, True), repeat=len(free))):
+        al = dict(zip(free, bits))
+        for ta_, t in tatoms.items():
+            al[ta_] = (t == ctype)
         hit = [lf for lf in leaves if ev(lf.cond(), al) is True]
         if len(hit) != 1:
             raise AnalysisError("_solv_get_warns: guard rows are not a partition")
         lf = hit[0]
-        silent_wanted = (not al[eS]) and (not al[eL]) and al[PCa] and not al[INa]
+        silent_wanted = ctype in SLEEPERS and al[PCa] and not al[INa]
         is_silent = lf.kind == "return" and lf.value == ""
         if silent_wanted != is_silent:
             ok4 = False
             rep.violation("R4", "components._Component._solv_get_warns", where,
-                          "warnings are %s for a %s%s whose phase table %s the phase" % (
-                              "suppressed" if is_silent else "evaluated", "source" if al[eS] else ("series loss" if al[eL] else "component"),
+                          "warnings are %s for a component of type %s%s whose phase table %s the phase" % (
+                              "suppressed" if is_silent else "evaluated", ctype,
                               "" if al[PCa] else " without phase table", "lists" if al[INa] else "does not list"),
-                          "silence S=%s L=%s PC=%s IN=%s" % tuple(bits[:4]))
+                          "silence type=%s PC=%s IN=%s" % (ctype, al[PCa], al[INa]))
         if not is_silent:
             # R2: the compared quantities
             if lf.kind != "return" or not (isinstance(lf.value, Sym) and lf.value.key[0] == "call" and lf.value.key[1] == "_get_warns"):
